@@ -59,6 +59,7 @@ THEOREMS = [
     "Cotengra.C18.reported_flops_partial",
     "Cotengra.C18.reported_flops_counterexample",
     "Cotengra.C18.hg_contract_legs",
+    "Cotengra.C18.hg_predicted_inds",
     "Cotengra.C18.hg_cost_eq_tree_partial",
     "Cotengra.C18.hg_cost_counterexample",
     "Cotengra.C18.four_rules_agree",
